@@ -102,10 +102,10 @@ static long coord(vt::Rng& r, long size) {
 static void history(vt::Rng& r, int nops) {
   tr.emit("{\"e\":\"Reset\"}");
   tr.histories++;
-  Image dst(r.below(9), r.below(9), r.chance(50)), src(r.below(7), r.below(7), r.chance(60)), mask(r.below(8), r.below(8), false);
+  Image dst(r.below(9), r.below(9), r.chance(50)), src(r.below(7), r.below(7), r.chance(60)), mask(r.below(8), r.below(8), r.chance(50));
   fill_pattern(dst, r, (int)r.below(3));
   fill_pattern(src, r, (int)r.below(3));
-  fill_pattern(mask, r, 0);
+  fill_pattern(mask, r, mask.get_has_alpha() ? 1 : 0);  // the mask's own alpha is irrelevant to the rule
   ev_new("dst", dst);
   ev_new("src", src);
   ev_new("mask", mask);
@@ -293,10 +293,10 @@ static void sweep_1d(vt::Rng& r, int maxw, int shard, int nshards) {
       for (int vertical = 0; vertical < 2; vertical++) {
         tr.emit("{\"e\":\"Reset\"}");
         tr.histories++;
-        Image dst(vertical ? 1 : dw, vertical ? dw : 1, true), src(vertical ? 1 : sw, vertical ? sw : 1, true), mask(vertical ? 1 : 3, vertical ? 3 : 1, false);
+        Image dst(vertical ? 1 : dw, vertical ? dw : 1, true), src(vertical ? 1 : sw, vertical ? sw : 1, true), mask(vertical ? 1 : 3, vertical ? 3 : 1, (dw + sw) % 2 == 1);
         fill_pattern(dst, r, 1);
         fill_pattern(src, r, 1);
-        fill_pattern(mask, r, 0);
+        fill_pattern(mask, r, mask.get_has_alpha() ? 1 : 0);
         ev_new("dst", dst);
         ev_new("src", src);
         ev_new("mask", mask);
